@@ -3,6 +3,8 @@
 package c19
 
 import (
+	"math"
+
 	"github.com/ChrisTrenkamp/xsel"
 
 	"verifharness/hx"
@@ -88,6 +90,14 @@ func RunStruct() {
 	sentinel := "untouched"
 	t := Target{Keep: sentinel}
 	t.Sub.Keep = 7
+	if nd.Bool() {
+		// a target that is not zero-valued (reused, or pre-populated by the caller)
+		old := "stale"
+		t.S, t.N, t.B2, t.P = "stale", 9, true, &old
+		t.L, t.LI, t.LP = []string{"stale"}, []int{9, 9}, []*string{&old}
+		t.Subs, t.PSubs = []Inner{{V: "stale"}}, []*Inner{{V: "stale"}}
+		t.Sub.V = "stale"
+	}
 	err := xsel.Unmarshal(xsel.NodeSet{b.root}, &t)
 	nd.Reach("struct")
 	if err != nil {
@@ -265,4 +275,75 @@ func RunRepoTest() {
 	nd.Assert(err != nil && err.Error() == "field <slice> is not settable", "repo-test.non-pointer-slice-error")
 	err = xsel.Unmarshal(elems, &sl)
 	nd.Assert(err == nil && len(sl) == 3 && sl[0] == 1 && sl[2] == 3, "repo-test.pointer-slice")
+}
+
+type Numbers struct {
+	I   int     `xsel:"$x"`
+	I8  int8    `xsel:"$x"`
+	I16 int16   `xsel:"$x"`
+	I32 int32   `xsel:"$x"`
+	I64 int64   `xsel:"$x"`
+	U   uint    `xsel:"$x"`
+	U8  uint8   `xsel:"$x"`
+	U16 uint16  `xsel:"$x"`
+	U32 uint32  `xsel:"$x"`
+	U64 uint64  `xsel:"$x"`
+	F32 float32 `xsel:"$x"`
+	F64 float64 `xsel:"$x"`
+	PU  *uint64 `xsel:"$x"`
+	B   bool    `xsel:"$x"`
+	S   string  `xsel:"$x > 0"`
+	LU  []uint64
+}
+
+// RunNumbers: every numeric field kind receives the number value converted to
+// the field type, for any double within the range of the type (Go leaves the
+// conversion of out-of-range values to the implementation: only no error).
+func RunNumbers() {
+	x := nd.F64()
+	root, _ := hx.Build([]hx.Event{{N: hx.Elem{Name: "r"}}, {End: true}})
+	var t Numbers
+	err := xsel.Unmarshal(xsel.NodeSet{root}, &t, xsel.WithVariable("x", xsel.Number(x)))
+	nd.Reach("numbers")
+	nd.Assert(err == nil, "numbers.noerr")
+	if err != nil {
+		return
+	}
+	tr := math.Trunc(x)
+	in := func(lo, hi float64) bool { return nd.And(tr >= lo, tr <= hi) }
+	if in(-128, 127) {
+		nd.Assert(t.I8 == int8(x), "numbers.int8")
+	}
+	if in(-32768, 32767) {
+		nd.Assert(t.I16 == int16(x), "numbers.int16")
+	}
+	if in(-2147483648, 2147483647) {
+		nd.Assert(t.I32 == int32(x), "numbers.int32")
+	}
+	if nd.And(tr >= -9223372036854775808.0, tr < 9223372036854775808.0) {
+		nd.Assert(t.I64 == int64(x), "numbers.int64")
+		nd.Assert(t.I == int(x), "numbers.int")
+	}
+	if in(0, 255) {
+		nd.Assert(t.U8 == uint8(x), "numbers.uint8")
+	}
+	if in(0, 65535) {
+		nd.Assert(t.U16 == uint16(x), "numbers.uint16")
+	}
+	if in(0, 4294967295) {
+		nd.Assert(t.U32 == uint32(x), "numbers.uint32")
+	}
+	if nd.And(tr >= 0, tr < 18446744073709551616.0) {
+		nd.Assert(t.U64 == uint64(x), "numbers.uint64")
+		nd.Assert(t.U == uint(x), "numbers.uint")
+		nd.Assert(t.PU != nil && *t.PU == uint64(x), "numbers.pointer-to-uint64")
+	}
+	nd.Assert(nd.SameF64(t.F64, x), "numbers.float64")
+	nd.Assert(nd.SameF64(float64(t.F32), float64(float32(x))), "numbers.float32")
+	nd.Assert(t.B == (x != 0 && x == x), "numbers.bool")
+	want := "false"
+	if x > 0 {
+		want = "true"
+	}
+	nd.Assert(t.S == want, "numbers.string-of-boolean")
 }
